@@ -3,9 +3,11 @@ package bech32
 import (
 	"errors"
 	"fmt"
+	"hash/fnv"
 	"os"
 	"sync"
 	"testing"
+	"time"
 )
 
 func vRun(op string, in M) M {
@@ -48,11 +50,9 @@ func vRun(op string, in M) M {
 			out["dec_data"] = vInts(d2)
 		}
 		return out
-	case "bech32.polymod":
-		vals := vBytes(in["values"])
-		var v int
-		p := vCatch(func() { v = bech32Polymod(vals) })
-		return M{"v": v, "panic": p}
+	}
+	if f, ok := vWB[op]; ok {
+		return f(in)
 	}
 	panic("unknown op " + op)
 }
@@ -60,25 +60,41 @@ func vRun(op string, in M) M {
 // runParBatch decodes all strings concurrently (8 goroutines, several repetitions): every call must give the answer the
 // specification gives for its own input, whatever other calls are doing.  A deviating answer wins over a conforming one.
 func runParBatch(rec *vRec, ins []M) {
-	outs := make([]M, len(ins))
+	outs := make([][]M, len(ins)) // the distinct answers seen for input i (index i is only touched by goroutine i%8)
+	keys := make([]map[string]bool, len(ins))
 	var wg sync.WaitGroup
+	budget := time.Duration(vEnvInt("VERIF_PAR_MS", 1500)) * time.Millisecond
+	start := make(chan struct{})
+	t0 := time.Now()
 	for g := 0; g < 8; g++ {
 		wg.Add(1)
 		go func(g int) {
 			defer wg.Done()
-			for rep := 0; rep < 12; rep++ {
+			<-start
+			// at least 12 passes, then keep going until the time budget is used: the window in which two calls could
+			// disturb each other is a few instructions wide
+			for rep := 0; rep < 12 || time.Since(t0) < budget; rep++ {
 				for i := g; i < len(ins); i += 8 {
 					o := vRun("bech32.Decode", ins[i])
-					if outs[i] == nil || fmt.Sprint(o["ok"]) != fmt.Sprint(outs[i]["ok"]) {
-						outs[i] = o
+					k := fmt.Sprint(o["ok"], o["hrp"], o["data"], o["panic"])
+					if keys[i] == nil {
+						keys[i] = map[string]bool{}
+					}
+					if !keys[i][k] && len(outs[i]) < 4 {
+						keys[i][k] = true
+						outs[i] = append(outs[i], o)
 					}
 				}
 			}
 		}(g)
 	}
+	close(start)
 	wg.Wait()
+	// every distinct answer is judged by the specification: a call that was disturbed by another one is rejected
 	for i := range ins {
-		rec.emit("bech32.Decode", ins[i], outs[i])
+		for _, o := range outs[i] {
+			rec.emit("bech32.Decode", ins[i], o)
+		}
 	}
 }
 
@@ -89,9 +105,43 @@ type rnd interface {
 	Read([]byte) (int, error)
 }
 
-// enc5 builds a checksum-correct string from arbitrary 5-bit symbols using the
-// package's own checksum routine (only used to choose inputs; the verdict on
-// every input comes from the TLA+ specification).
+// csPolymod / csChecksum: the driver's own BIP-173 checksum (only used to choose inputs; the verdict on every input
+// comes from the TLA+ specification, so an error here could only make inputs less interesting).
+func csPolymod(values []byte) uint32 {
+	gen := [5]uint32{0x3b6a57b2, 0x26508e6d, 0x1ea119fa, 0x3d4233dd, 0x2a1462b3}
+	chk := uint32(1)
+	for _, v := range values {
+		top := chk >> 25
+		chk = (chk&0x1ffffff)<<5 ^ uint32(v)
+		for i := 0; i < 5; i++ {
+			if (top>>uint(i))&1 == 1 {
+				chk ^= gen[i]
+			}
+		}
+	}
+	return chk
+}
+
+func csChecksum(hrp string, syms []byte) []byte {
+	var vals []byte
+	for i := 0; i < len(hrp); i++ {
+		vals = append(vals, hrp[i]>>5)
+	}
+	vals = append(vals, 0)
+	for i := 0; i < len(hrp); i++ {
+		vals = append(vals, hrp[i]&31)
+	}
+	vals = append(vals, syms...)
+	vals = append(vals, 0, 0, 0, 0, 0, 0)
+	pm := csPolymod(vals) ^ 1
+	out := make([]byte, 6)
+	for i := 0; i < 6; i++ {
+		out[i] = byte((pm >> uint(5*(5-i))) & 31)
+	}
+	return out
+}
+
+// enc5 builds a checksum-correct string from arbitrary 5-bit symbols.
 func enc5(hrp string, syms []byte) string {
 	lower := []byte(hrp)
 	for i, c := range lower {
@@ -99,7 +149,7 @@ func enc5(hrp string, syms []byte) string {
 			lower[i] = c + 32
 		}
 	}
-	cs := bech32CreateChecksum(string(lower), syms)
+	cs := csChecksum(string(lower), syms)
 	out := append([]byte{}, lower...)
 	out = append(out, '1')
 	for _, v := range append(append([]byte{}, syms...), cs...) {
@@ -176,20 +226,72 @@ func otherCharsetChar(r rnd, c byte) byte {
 	}
 }
 
+// hashCollisions: pairs of human-readable parts of equal length that differ in at most 4 characters and collide under
+// a common 32-bit string hash (FNV-1, FNV-1a).  These hashes carry their whole state in
+// the output, so the collision survives any common suffix.  Inputs for C16: a decoder that memoises anything by such a
+// hash of the HRP confuses the two.
+func hashCollisions(r rnd, perHash int) [][2]string {
+	const alpha = "abcdefghijklmnopqrstuvwxyz023456789"
+	hashes := []func([]byte) uint32{
+		func(b []byte) uint32 { h := fnv.New32a(); h.Write(b); return h.Sum32() },
+		func(b []byte) uint32 { h := fnv.New32(); h.Write(b); return h.Sum32() },
+	}
+	var out [][2]string
+	for _, hf := range hashes {
+		// a word of 7..9 characters: positions 0, 2, 4, 6 vary, the others are fixed
+		buf := make([]byte, 7+r.Intn(3))
+		for i := range buf {
+			buf[i] = alpha[r.Intn(26)]
+		}
+		seen := make(map[uint32]uint32, 1<<21)
+		found := 0
+		word := func(k uint32) []byte {
+			for j := 0; j < 4; j++ {
+				buf[2*j] = alpha[k%35]
+				k /= 35
+			}
+			return buf
+		}
+		for k := uint32(0); k < 35*35*35*35 && found < perHash; k++ {
+			h := hf(word(k))
+			if o, ok := seen[h]; ok {
+				a := string(word(o))
+				out = append(out, [2]string{a, string(word(k))})
+				found++
+				continue
+			}
+			seen[h] = k
+		}
+	}
+	return out
+}
+
 // genC16: substitutions of weight 1..4 in valid strings (C16).
 func genC16(do func(string, M)) {
 	r := vRand(16)
 	n := vEnvInt("VERIF_N", 40)
 	dec := func(s string) { do("bech32.Decode", M{"s": vInts([]byte(s))}) }
+	// colliding human-readable parts: the valid string of one, then the other's HRP in front of the same data part
+	// (an HRP substitution of weight <= 4), in both orders
+	for _, pr := range hashCollisions(r, 3) {
+		data := make([]byte, 1+r.Intn(20))
+		r.Read(data)
+		for _, o := range [][2]string{{pr[0], pr[1]}, {pr[1], pr[0]}} {
+			if s, err := Encode(o[0], data); err == nil {
+				dec(s)
+				dec(o[1] + s[len(o[0]):])
+			}
+		}
+	}
 	// white box: the real polymod on unit vectors (position x bit) and random vectors
-	for pos := 1; pos <= 100; pos += 1 {
+	for pos := 1; vHasWB("bech32.polymod") && pos <= 100; pos += 1 {
 		for bit := 0; bit < 5; bit++ {
 			v := make([]byte, pos)
 			v[0] = 1 << uint(bit)
 			do("bech32.polymod", M{"values": vInts(v)})
 		}
 	}
-	for k := 0; k < 50; k++ {
+	for k := 0; vHasWB("bech32.polymod") && k < 50; k++ {
 		v := make([]byte, 1+r.Intn(100))
 		for i := range v {
 			v[i] = byte(r.Intn(32))
